@@ -302,3 +302,6 @@ also("C02", "Also: each TimeZone::timestamp_* wrapper calls the constructor it w
 also("C13", "Also: the long-name scanners test the remaining length only against the suffix's own length (a constant cut-off above the shortest suffix skips June / July).")
 also("C19", "Also: the long-name scanners behind Month / Weekday FromStr: same calls in both, length tested only against the suffix's own length (shared with C13).")
 also("C20", "Also: Weekday and Month, like the date and time types, write a string and no other Serializer primitive (their Deserialize requests deserialize_str).")
+_Y = "Also: write_rfc3339's signed-year format template is one zero-padded placeholder of width 5, read relative to the 3 / 6 / 9 fraction templates of the same function."
+also("C10", _Y)
+also("C12", _Y)
